@@ -90,6 +90,7 @@ def oracle(case, out):
 def run(ctx):
     run_hist(ctx, PROFILE, oracle, 1500, 30000)
 
-LEVEL_TEXT = "placeholder"; LEVEL_NOTE = "placeholder"
 TECHNIQUE = "Lean 4 refinement to the DDS instance automaton + differential correspondence with DataReaderEntity"
-CLAIMED = False
+LEVEL_TEXT = "Kernel-checked Lean refinement: for every received change and every outcome (stored, filtered, rejected) the reader's instance_state and both generation counters make exactly one step of the DDS instance automaton (C22_instance_state_refines), the double update_state of the code is idempotent (C22_update_twice), unknown not-alive changes are ignored. The view_state clause fails on the code as it is (finding D28, Lean witnesses C22_view_*_counterexample) as does multi-writer unregistration (D51); both are reproduced on the real reader by the oracle, which runs the reference automaton against every dump and SampleInfo."
+LEVEL_NOTE = 'Trusted: Lean kernel (axioms audited: propext, Classical.choice, Quot.sound at most); the hand-written model Model/ReaderHist.lean of data_reader_entity.rs / user_defined_data_reader.rs (handles as Nat, times as total ns, Vec as List); the hist harness that drives the real DataReaderEntity<()> / UserDefinedDataReader through the cfg(dust_dds_verif) re-export and prints canonical lines; the Python oracle. The differential run validates the model on sampled op sequences only; the theorems are about the model.'
+DESIGN_REF = 'DESIGN.md section 5 C22'
